@@ -39,6 +39,12 @@ func judgeSub(v *harness.Verdict, s subView) {
 	if !o.Started {
 		return
 	}
+	for _, b := range s.Beh {
+		if b.Kind == behSCT && b.SkewS > 300 {
+			v.Class("sct:stamped-more-than-5min-ahead")
+			break
+		}
+	}
 
 	// --- no log was sent the chain more than once; only eligible logs are contacted -----------------
 	perLog := map[int]int{}
